@@ -1903,6 +1903,89 @@ def check_colr(spec, cx):
 
 
 # ---------------------------------------------------------------------------
+# DeltaSetIndexMap (HVAR.AdvWidthMap)
+
+
+def read_hvar_advmap(data):
+    """Own reader: -> list of (outer, inner) of HVAR's advance width mapping (OpenType 'DeltaSetIndexMap')."""
+    if len(data) < 20:
+        raise otread.ReadError("HVAR too short")
+    off = struct.unpack(">L", data[8:12])[0]
+    if off == 0:
+        return None
+    fmt, ef = data[off], data[off + 1]
+    if fmt == 0:
+        (count,) = struct.unpack(">H", data[off + 2 : off + 4])
+        p = off + 4
+    elif fmt == 1:
+        (count,) = struct.unpack(">L", data[off + 2 : off + 6])
+        p = off + 6
+    else:
+        raise otread.ReadError("DeltaSetIndexMap format %d" % fmt)
+    size = ((ef & 0x30) >> 4) + 1
+    inner_bits = (ef & 0x0F) + 1
+    out = []
+    for i in range(count):
+        chunk = data[p + i * size : p + (i + 1) * size]
+        if len(chunk) != size:
+            raise otread.ReadError("map data truncated")
+        e = int.from_bytes(chunk, "big")
+        out.append((e >> inner_bits, e & ((1 << inner_bits) - 1)))
+    return out
+
+
+def check_dsim(spec, cx):
+    from fontTools.ttLib import newTable
+    from fontTools.ttLib.tables import otTables as ot
+    from fontTools.varLib import builder as vb
+
+    n = spec["n"]
+    names = glyph_names(n)
+    font = new_font(n)
+    want = [[o, i] for o, i in spec["map"]]
+
+    def build():
+        hvar = newTable("HVAR")
+        hvar.table = ot.HVAR()
+        hvar.table.Version = 0x00010000
+        region = vb.buildVarRegion({"wght": (0.0, 1.0, 1.0)}, ["wght"])
+        hvar.table.VarStore = vb.buildVarStore(vb.buildVarRegionList([{"wght": (0.0, 1.0, 1.0)}], ["wght"]), [vb.buildVarData([0], [[1], [2]])])
+        hvar.table.AdvWidthMap = vb.buildVarIdxMap([(o << 16) | i for o, i in want], names)
+        hvar.table.LsbMap = hvar.table.RsbMap = None
+        return hvar
+
+    hvar = cx.call("build", build)
+    data = cx.call("compile", hvar.compile, font)
+    t2 = stub_table("HVAR")
+
+    def dec():
+        t2.decompile(data, new_font(n))
+        m = t2.table.AdvWidthMap.mapping
+        return [[(m[g] >> 16) & 0xFFFF, m[g] & 0xFFFF] for g in names]
+
+    got = cx.call("decompile", dec)
+    if got != want:
+        cx.fail("roundtrip", "varidx-map", first_diff(dict(enumerate(want)), dict(enumerate(got))))
+    rd = cx.read("reader", read_hvar_advmap, data)
+    # the writer may drop trailing entries that repeat the last one (the format says: beyond the end, the last entry applies)
+    if rd is None or not rd:
+        cx.fail("reader", "varidx-map", "no map written")
+    else:
+        full = [list(x) for x in rd] + [list(rd[-1])] * (n - len(rd))
+        if full[:n] != want:
+            cx.fail("reader", "varidx-map", first_diff(dict(enumerate(want)), dict(enumerate(full[:n]))))
+        if len(rd) < n:
+            cx.label("dsim:trailing-entries-trimmed")
+    cx.label("dsim:%s" % spec["shape"])
+    ored = 0
+    for _o, i in want:
+        ored |= i
+    if ored and ored & (ored - 1) == 0 and ored >= 2:
+        cx.label("dsim:inner-or-is-a-single-bit>=2")
+    return True
+
+
+# ---------------------------------------------------------------------------
 # dispatch
 
 FAMILIES = {
@@ -1927,11 +2010,12 @@ FAMILIES = {
     "layout": (G.layout_specs, check_layout),
     "var": (G.var_specs, check_var),
     "colr": (G.colr_specs, check_colr),
+    "dsim": (G.dsim_specs, check_dsim),
 }
 
 # quick-tier case counts per family (thorough = x20)
-QUICK = {"cmap": 900, "cmap-big12": 4, "cmap-big13": 4, "metrics": 400, "glyf": 500, "glyf-loca": 24, "name": 500, "gdef": 400, "kern": 150, "post": 200, "os2": 60, "os2-v0": 12, "os2-v1": 12, "os2-v2": 12, "os2-v3": 12, "os2-v4": 12, "os2-v5": 12, "layout": 500, "var": 300, "colr": 200}
-SHARDS = {"cmap": 8, "cmap-big12": 2, "cmap-big13": 2, "metrics": 4, "glyf": 6, "glyf-loca": 4, "name": 3, "gdef": 4, "kern": 1, "post": 2, "os2": 1, "os2-v0": 1, "os2-v1": 1, "os2-v2": 1, "os2-v3": 1, "os2-v4": 1, "os2-v5": 1, "layout": 6, "var": 5, "colr": 2}
+QUICK = {"cmap": 900, "cmap-big12": 4, "cmap-big13": 4, "metrics": 400, "glyf": 500, "glyf-loca": 24, "name": 500, "gdef": 400, "kern": 150, "post": 200, "os2": 60, "os2-v0": 12, "os2-v1": 12, "os2-v2": 12, "os2-v3": 12, "os2-v4": 12, "os2-v5": 12, "layout": 500, "var": 300, "colr": 300, "dsim": 300}
+SHARDS = {"cmap": 8, "cmap-big12": 2, "cmap-big13": 2, "metrics": 4, "glyf": 6, "glyf-loca": 4, "name": 3, "gdef": 4, "kern": 1, "post": 2, "os2": 1, "os2-v0": 1, "os2-v1": 1, "os2-v2": 1, "os2-v3": 1, "os2-v4": 1, "os2-v5": 1, "layout": 6, "var": 5, "colr": 2, "dsim": 2}
 
 REQUIRED_LABELS = [
     "cmap4:idRangeOffset", "cmap4:idDelta", "cmap4:idDelta-wraps", "cmap4:U+FFFF-mapped", "cmap4:empty", "cmap0", "cmap2", "cmap6",
@@ -1952,7 +2036,7 @@ REQUIRED_LABELS = [
     "tv:shared-points", "tv:private-points", "tv:all-points", "tv:some-points", "tv:shared-peak-tuple", "tv:embedded-peak",
     "tv:intermediate-region", "tv:delta-run-zero", "tv:delta-run-byte", "tv:delta-run-word", "tv:delta-run-long",
     "gvar:harfbuzz-outline", "gvar:inferred-deltas", "avar", "cvar", "tv:cvar-shares-point-numbers", "fvar:instances-with-psname",
-    "colr:v0", "colr:v1", "colr:paint-format-1", "colr:paint-format-12", "colr:paint-format-32",
+    "dsim:two-rows", "dsim:single-bit", "dsim:inner-or-is-a-single-bit>=2", "colr:v0", "colr:v1", "colr:paint-format-1", "colr:paint-format-12", "colr:paint-format-32",
 ]
 
 
